@@ -51,7 +51,7 @@ BDEF = {'stdout': False, 'stdout_color': False, 'stderr': False, 'stderr_color':
         'rotate_on_startup': True, 'rotate_daily': False, 'compress_old_files': False, 'async': False}
 TYPES = 'dwci'
 CATS = ['default', 'net', 'app', 'app.ui', 'app.db', 'x']
-TEXTS = ['hello', 'keep me', 'Alpha 1', 'password=1', 'z', '', 'a b c', 'tail z', 'Amid keep', 'café 日本', 'line1\nline2',
+TEXTS = ['hello', 'Ünï ©', 'zażółć gęślą', 'smile 😀 end', 'keep me', 'Alpha 1', 'password=1', 'z', '', 'a b c', 'tail z', 'Amid keep', 'café 日本', 'line1\nline2',
          '\x1b[31mred\x1b[0m', 'x\x1b[1;38;5;88my', '\x1b[', '\x1b[3\x1b[0m1m', '100% %{message}', ' lead', 'semi;colon=1']
 ESC_FRAGS = ['\x1b[0m', '\x1b[31m', '\x1b[1;38;5;88m', '\x1b[', '\x1b', '[0m', 'm', '1;', 'x', '\x1b[;m', '\x1b[3', '\x1b[m',
              'abc', ' ', '\x1b[38;5;172mtext\x1b[0m', '\x1b[3\x1b[0m1m', '\x1b\x1b[0m', '\x1b[0;', '\x1b[:m', '\x1b[0n', ';', '9']
@@ -77,12 +77,22 @@ def hx8(s):
     return (s.encode('utf-8') if isinstance(s, str) else s).hex() or '-'
 
 
-def to_bytes(h):
+def latin1_map(s):
+    """QLatin1Codec::convertFromUnicode, per UTF-16 code unit: above U+00FF -> '?'"""
+    b = s.encode('utf-16-le', 'surrogatepass')
+    return ''.join(chr(u) if u < 256 else '?' for u in (b[i] | (b[i + 1] << 8) for i in range(0, len(b), 2)))
+
+
+def to_bytes(h, codec='utf8'):
+    """bytes a sink writes for the model's UTF-16 text under the process's locale codec (the codec is
+    outside the model)"""
+    if codec == 'latin1':
+        return latin1_map(unhx16(h)).encode('latin-1')
     return unhx16(h).encode('utf-8', 'surrogatepass')
 
 
-def of_bytes(b):
-    return hx16(b.decode('utf-8', 'replace'))
+def of_bytes(b, codec='utf8'):
+    return hx16(b.decode('latin-1') if codec == 'latin1' else b.decode('utf-8', 'replace'))
 
 
 def timestr(t):
@@ -119,11 +129,18 @@ def gen_rule(rng):
 
 def gen_pattern(rng):
     menu = [['m'], ['t', ('l', ': '), 'm'], [('l', '['), 'c', ('l', '] '), 'm']]
-    if rng.random() < 0.5:
+    # conditional-only patterns: a message of another type gets an EMPTY record (not the raw text)
+    cond = [[('i', 'c'), ('l', 'CRIT '), 'm', 'e', ('i', 'w'), ('l', 'WARN '), 'm', 'e'],
+            [('i', 'w'), 'm', 'e'], [('i', 'd'), ('l', 'dbg: '), 'm'], [('i', 'i'), 't', 'e', ('i', 'c'), 'c'],
+            [('i', 'f'), ('l', 'never'), 'e'], [('i', 'd'), 'e'], [('l', 'all '), ('i', 'i'), 'm', 'e', ('l', '.')]]
+    x = rng.random()
+    if x < 0.35:
         return rng.choice(menu)
+    if x < 0.6:
+        return rng.choice(cond)
     p = []
-    for _ in range(rng.randint(1, 5)):
-        p.append(rng.choice(['m', 't', 'c', ('l', rng.choice(LITS))]))
+    for _ in range(rng.randint(1, 6)):
+        p.append(rng.choice(['m', 't', 'c', ('l', rng.choice(LITS)), ('l', rng.choice(LITS)), ('i', rng.choice('dwcif')), 'e']))
     # adjacent literals are fine (they concatenate); make sure a placeholder does not get glued to a '%'
     return p
 
@@ -148,6 +165,7 @@ def gen_ini_case(rng, i, subset=None):
     c['api'] = rng.choice(['ini', 'inis'])
     c['end'] = rng.choice(['exec', 'reset'])
     c['tty'] = rng.choice([(0, 0), (0, 0), (1, 1), (1, 0), (0, 1)])
+    c['codec'] = rng.choice(['utf8', 'utf8', 'utf8', 'latin1'])
     c['pre'] = rng.choice(['', '', 'OLD RECORD\n'])
     c['msgs'] = gen_msgs(rng, rng.randint(1, 10), esc=rng.random() < 0.15, same_day=bool(c['b']['async']))
     if c['rx'] and rng.random() < 0.6:
@@ -173,6 +191,7 @@ def gen_oneline_case(rng, i):
     c['async'] = rng.random() < 0.5
     c['end'] = rng.choice(['exec', 'reset'])
     c['tty'] = rng.choice([(0, 0), (0, 0), (0, 1), (1, 1)])
+    c['codec'] = rng.choice(['utf8', 'utf8', 'latin1'])
     c['pre'] = rng.choice(['', '', 'OLD RECORD\n'])
     c['msgs'] = gen_msgs(rng, rng.randint(1, 14), esc=rng.random() < 0.6, same_day=c['async'])
     return c
@@ -192,7 +211,7 @@ def ini_line(c):
     t.append('X-' if c['rx'] is None else 'X%s:%s' % (c['rx'][0], hx16(c['rx'][1])))
     t.append('P%d' % len(c['pattern']))
     for p in c['pattern']:
-        t.append(p if isinstance(p, str) else 'l:' + hx16(p[1]))
+        t.append(p if isinstance(p, str) else ('l:' + hx16(p[1]) if p[0] == 'l' else 'i:' + p[1]))
     t.append('B' + ''.join('-' if c['b'][k] is None else ('1' if c['b'][k] else '0') for k in BKEYS))
     t += ['Y' + hx16(c['syslog']), 'F' + (hx16('p') if c['path'] else '-'),
           'Z' + ('-' if c['size'] is None else str(c['size'])), 'C' + ('-' if c['count'] is None else str(c['count']))]
@@ -334,6 +353,8 @@ def run_case(impl, c, texts, work):
         os.utime(logpath, (1600000000, 1600000000))   # older than every virtual message date
     shape = os.path.join(d, 'shape.txt')
     s = ['shape ' + shape]
+    if c.get('codec', 'utf8') == 'latin1':
+        s.append('codec ISO-8859-1')
     if c['front'] == 'ini':
         ini = write_ini(impl, c, texts, d, logpath)
         s.append('%s %s %s' % (c['api'], hx8(ini), '-' if c['group'] == '-' else hx8(c['group'])))
@@ -393,17 +414,24 @@ def compare_front(chk, front, cases, model, impl, work, stats):
     orc_in, views = [], []
     for c, line, m, o in zip(cases, lines, mo, obs):
         f = m.split()
-        exp_file = to_bytes(f[4]) if len(f) > 4 else b''
+        cd = c.get('codec', 'utf8')
+        exp_file = to_bytes(f[4], cd) if len(f) > 4 else b''
         fv, trimmed = file_view(c, o, exp_file)
         views.append((fv, trimmed))
         if front == 'ini':
-            orc_in.append('%s | %s %s %s' % (line, of_bytes(o['out']), of_bytes(o['err']), of_bytes(fv)))
+            if cd == 'latin1':
+                # the streams are decoded as Latin-1; the oracle is given the message texts as the codec renders
+                # them (units above U+00FF -> '?'; no menu literal contains '?', so the filters decide alike)
+                line = ini_line(dict(c, msgs=[dict(mm, text=latin1_map(mm['text'])) for mm in c['msgs']]))
+            orc_in.append('%s | %s %s %s' % (line, of_bytes(o['out'], cd), of_bytes(o['err'], cd), of_bytes(fv, cd)))
         else:
-            orc_in.append('%s %s' % (of_bytes(o['err']), of_bytes(fv)) if c['path'] else '- -')
+            # console bytes and file bytes compared as bytes (decoded unit per byte under Latin-1)
+            orc_in.append('%s %s' % (of_bytes(o['err'], cd), of_bytes(fv, cd)) if c['path'] else '- -')
     _, verdict, _ = vlib.run_lines(model, orc_in, ['inioracle' if front == 'ini' else 'oloracle'])
     failing, disagree = [], []
     for c, line, m, o, (fv, trimmed), v in zip(cases, lines, mo, obs, views, verdict):
         f = m.split()
+        cd = c.get('codec', 'utf8')
         if len(f) < 5:
             disagree.append((c, 'model driver error: ' + m, o)); continue
         stats['trimmed'] += trimmed
@@ -417,8 +445,6 @@ def compare_front(chk, front, cases, model, impl, work, stats):
                 why.append('one-line configuration wrote to stdout')
             if not c['path'] and o['names']:
                 why.append('files were created although no path was given')
-            if not c['path'] and o['err'] != to_bytes(f[3]):
-                pass  # covered by the model comparison below (no file to relate the console text to)
         if front == 'ini' and not c['path'] and o['names']:
             why.append('files were created although no path key was given')
         if o['other']:
@@ -431,20 +457,21 @@ def compare_front(chk, front, cases, model, impl, work, stats):
             diffs.append('handler list: model %s, implementation %s' % (f[0], o['shape']))
         if o['async'] != f[1]:
             diffs.append('own thread: model %s, implementation %s' % (f[1], o['async']))
-        if o['out'] != to_bytes(f[2]):
+        if o['out'] != to_bytes(f[2], cd):
             diffs.append('stdout differs')
-        if o['err'] != to_bytes(f[3]):
+        if o['err'] != to_bytes(f[3], cd):
             diffs.append('stderr differs')
-        if fv != to_bytes(f[4]):
+        if fv != to_bytes(f[4], cd):
             diffs.append('log file differs')
         if diffs:
             disagree.append((c, '; '.join(diffs), o))
     return failing, disagree, obs, mo
 
 
-def small(o):
-    return {'rc': o['rc'], 'stdout': o['out'].decode('utf-8', 'replace')[:600], 'stderr': o['err'].decode('utf-8', 'replace')[:900],
-            'log_records': o['file'].decode('utf-8', 'replace')[:600], 'files': o['names'], 'handlers': o['shape'], 'own_thread': o['async']}
+def small(o, codec='utf8'):
+    enc = 'latin-1' if codec == 'latin1' else 'utf-8'
+    return {'rc': o['rc'], 'stdout': o['out'].decode(enc, 'replace')[:600], 'stderr': o['err'].decode(enc, 'replace')[:900],
+            'log_records': o['file'].decode(enc, 'replace')[:600], 'streams_decoded_as': enc, 'files': o['names'], 'handlers': o['shape'], 'own_thread': o['async']}
 
 
 def shrink_case(c, still_bad):
@@ -662,11 +689,11 @@ def run():
                     kind = 'ini_output'
                     what = 'INI configuration: observed outputs are not what the keys say (%s)' % '; '.join(why2)
                 else:
-                    _, sp, _ = vlib.run_lines(model, [of_bytes(obs2[0]['err'])], ['stripspec'])
+                    _, sp, _ = vlib.run_lines(model, [of_bytes(obs2[0]['err'], c.get('codec', 'utf8'))], ['stripspec'])
                     spec = {'log_records = console text minus SGR sequences': unhx16(sp[0])}
                     kind = 'oneline_output'
                     what = 'one-line configuration: the log file is not the console text minus its colour codes / extra output (%s)' % '; '.join(why2)
-                chk.fail(what, {'kind': kind, 'front': front, 'why': why2, 'case': describe(c, texts), 'observed': small(obs2[0]),
+                chk.fail(what, {'kind': kind, 'front': front, 'why': why2, 'case': describe(c, texts), 'observed': small(obs2[0], c.get('codec', 'utf8')),
                                 'specified': spec, 'model_of_the_code': mo2[0][:800], 'falsified_cases': len(failing)}, kind=kind)
             if disagree:
                 c, why, o = min(disagree, key=lambda x: len(x[0]['msgs']))
@@ -690,12 +717,17 @@ def run():
                 cov['ini_formatter'] = {'pattern': sum(1 for m in mo if 'PatternFormatter' in m.split()[0]), 'pretty': sum(1 for m in mo if 'PrettyFormatter' in m.split()[0])}
                 cov['ini_filters'] = {'category': sum(1 for m in mo if 'CategoryFilter' in m.split()[0]), 'regexp': sum(1 for m in mo if 'RegExpFilter' in m.split()[0])}
                 cov['ini_async'] = sum(1 for m in mo if m.split()[1] == '1')
+                cov['ini_latin1_codec'] = sum(1 for c in cs if c.get('codec') == 'latin1')
+                cov['ini_empty_records'] = sum((o['out'] + o['err'] + o['file']).count(b'\n\n') for o in obs)
+                cov['ini_conditional_patterns'] = sum(1 for c in cs if any(isinstance(p, tuple) and p[0] == 'i' for p in c['pattern']))
                 cov['ini_writer'] = {w: sum(1 for c in cs if c['writer'] == w) for w in ('qsettings', 'python')}
                 cov['ini_tty'] = {str(t): sum(1 for c in cs if tuple(c['tty']) == t) for t in ((0, 0), (1, 1), (1, 0), (0, 1))}
                 cov['ini_coloured_console_records'] = sum(1 for o in obs if b'\x1b[' in o['out'] + o['err'])
                 cov['ini_cases_without_any_record'] = sum(1 for c, o in zip(cs, obs) if o['err'].count(b'\n') + o['out'].count(b'\n') + o['file'].count(b'\n') == 0)
                 cov['ini_rotated_cases'] = sum(1 for o in obs if o['nrot'] > 0)
             else:
+                cov['oneline_latin1_codec'] = sum(1 for c in cs if c.get('codec') == 'latin1')
+                cov['oneline_latin1_non_ascii_records'] = sum(1 for c, o in zip(cs, obs) if c.get('codec') == 'latin1' and any(b > 127 for b in o['err']))
                 cov['oneline_with_file'] = sum(1 for c in cs if c['path'])
                 cov['oneline_rotating'] = sum(1 for m in mo if 'RotatingFileSink' in m.split()[0])
                 cov['oneline_async'] = sum(1 for m in mo if m.split()[1] == '1')
@@ -777,6 +809,6 @@ def replay(path):
         _, sp, _ = vlib.run_lines(model, [line], ['inispec'])
         print('specification  ', json.dumps(dict(zip(('stdout', 'stderr', 'log_records'), (unhx16(x) for x in sp[0].split()))), ensure_ascii=False))
     else:
-        _, sp, _ = vlib.run_lines(model, [of_bytes(o['err'])], ['stripspec'])
+        _, sp, _ = vlib.run_lines(model, [of_bytes(o['err'], c.get('codec', 'utf8'))], ['stripspec'])
         print('specification  ', json.dumps({'log_records': unhx16(sp[0])}, ensure_ascii=False))
     return 0
